@@ -37,10 +37,10 @@ var c36CPU = [][2]int{{0, 0}, {1, 50}, {2, 50}, {0, 50}, {2, 100}} // count, per
 var c36Set = [][]int{nil, {0}, {0, 1}, {1, 2}}
 
 type c36Req struct {
-	Mem int `json:"mem"`
-	Thr int `json:"thr"`
-	CPU int `json:"cpu"`
-	Set int `json:"set"`
+	Mem int8 `json:"mem"`
+	Thr int8 `json:"thr"`
+	CPU int8 `json:"cpu"`
+	Set int8 `json:"set"`
 }
 
 func (q c36Req) String() string {
@@ -84,8 +84,8 @@ const (
 )
 
 type c36Op struct {
-	K int    `json:"k"`
-	T int    `json:"t"` // index (creation order) of the parent (sub) or the group (upd)
+	K int8   `json:"k"`
+	T int8   `json:"t"` // index (creation order) of the parent (sub) or the group (upd)
 	R c36Req `json:"r"`
 }
 
@@ -376,7 +376,7 @@ func (f *c36Forest) broken() []c36Clause {
 func c36Apply(obs []c36Obs, op c36Op) []c36Obs {
 	res := make([]c36Obs, len(obs), len(obs)+1)
 	copy(res, obs)
-	t := op.T
+	t := int(op.T)
 	if op.K != c36Upd {
 		n := c36Obs{Name: c36Names[len(obs)]}
 		if op.K == c36Sub {
@@ -473,7 +473,17 @@ type c36Step struct {
 }
 
 // c36Judge executes op on inst (whose observed forest is pre) and evaluates the oracle.
-func c36Judge(inst *c36Inst, pre []c36Obs, preSnap string, op c36Op, numCPU int) c36Step {
+func c36Judge(inst *c36Inst, pre []c36Obs, preSnap string, op c36Op, numCPU int) (st c36Step) {
+	defer func() {
+		if e := recover(); e != nil {
+			st.outcome = "panic"
+			st.violations = append(st.violations, c36Verdict{"panic:" + c36DriftKind(op), fmt.Sprintf("request %v made the code under test panic: %v", op, e)})
+		}
+	}()
+	return c36Judge1(inst, pre, preSnap, op, numCPU)
+}
+
+func c36Judge1(inst *c36Inst, pre []c36Obs, preSnap string, op c36Op, numCPU int) c36Step {
 	var st c36Step
 	want := c36Apply(pre, op)
 	wf, werr := c36Build(want, numCPU)
@@ -542,7 +552,7 @@ func c36Judge(inst *c36Inst, pre []c36Obs, preSnap string, op c36Op, numCPU int)
 		st.violations = append(st.violations, c36Verdict{"accepted-not-applied:" + c36DriftKind(op), fmt.Sprintf("request %v accepted but group count is %d, expected %d", op, len(post), len(want))})
 		return st
 	}
-	t := op.T
+	t := int(op.T)
 	if op.K != c36Upd {
 		t = len(want) - 1
 	}
@@ -577,7 +587,7 @@ func c36NamedMismatch(got, want c36Obs, r c36Req) string {
 // c36Related: does any ancestor or descendant of the target carry a limit (or cpu-set) of a kind the
 // request names? (evaluated on the requested forest wf, target = op.T or the new last group)
 func c36Related(wf *c36Forest, op c36Op, n int) bool {
-	t := op.T
+	t := int(op.T)
 	if op.K != c36Upd {
 		t = n - 1
 	}
@@ -604,7 +614,7 @@ func c36Related(wf *c36Forest, op c36Op, n int) bool {
 // c36MayRefuse: refusal reasons that are legitimate although the requested forest satisfies the clauses of
 // the statement (calibrated on the unchanged tree; each is described in meta/C36.json).
 func c36MayRefuse(wf *c36Forest, op c36Op, n int) bool {
-	t := op.T
+	t := int(op.T)
 	if op.K != c36Upd {
 		t = n - 1
 	}
@@ -666,7 +676,7 @@ func (p c36Proj) reqs() []c36Req {
 					if m+t+c+s == 0 {
 						continue
 					}
-					res = append(res, c36Req{m, t, c, s})
+					res = append(res, c36Req{int8(m), int8(t), int8(c), int8(s)})
 				}
 			}
 		}
@@ -700,13 +710,13 @@ func c36Enabled(p c36Proj, reqs []c36Req, obs []c36Obs) []c36Op {
 				continue
 			}
 			for _, r := range reqs {
-				ops = append(ops, c36Op{K: c36Sub, T: t, R: r})
+				ops = append(ops, c36Op{K: c36Sub, T: int8(t), R: r})
 			}
 		}
 	}
 	for t := 0; t < n; t++ {
 		for _, r := range reqs {
-			ops = append(ops, c36Op{K: c36Upd, T: t, R: r})
+			ops = append(ops, c36Op{K: c36Upd, T: int8(t), R: r})
 		}
 	}
 	return ops
